@@ -1,6 +1,7 @@
 (* Thread/Refute.v — what the faithful model refutes, with concrete traces (vm_compute):
    - the order before fix eafa506 (ReleaseBytes after the hand-off) breaks the baton;
-   - the code as it stands can deadlock: a __close handler run by end that resumes a coroutine. *)
+   - the code before the handler repair (handlers run inside the locked section of end) can deadlock:
+     a __close handler run by end that resumes a coroutine. *)
 From Coq Require Import List Bool Arith Lia.
 From GV Require Import Thread.Proto Thread.Inv Thread.Preserve.
 Import ListNotations.
@@ -26,10 +27,10 @@ Qed.
 (* the same trace is NOT a behaviour of the current protocol (the trace acceptor rejects it) ... *)
 Example race_trace_rejected_now : accepts current race_trace = false.
 Proof. vm_compute. reflexivity. Qed.
-(* ... and the corresponding current trace (E6r ReleaseBytes = action 27 before the send) is accepted *)
+(* ... and the corresponding current trace (handler phase first, E6r ReleaseBytes = action 27 before the send) is accepted *)
 Definition fixed_trace : list action :=
   [A 0 LCreate; A 0 (LResume 1 0)] ++ steps 0 [1;2;3;4;5;6] ++ [A 0 LRdv; A 1 (LFinish (MVal 1))] ++
-  steps 1 [20;21;22;23;24;25;26;27] ++ [A 1 LRdv] ++ steps 1 [29;30].
+  steps 1 [20] ++ [A 1 (LHDone (MVal 1))] ++ steps 1 [21;22;23;24;26;27] ++ [A 1 LRdv] ++ steps 1 [29;30].
 Example fixed_trace_accepted : accepts current fixed_trace = true /\ accepts old_order fixed_trace = false.
 Proof. vm_compute. auto. Qed.
 
@@ -40,7 +41,9 @@ Proof.
   all: unfold can_step; apply existsb_exists; exists g; split; [apply in_seq; lia|];
        unfold enabled_g, offers; rewrite Pg; cbn [existsb].
   all: try (rewrite H'; reflexivity).
-  all: unfold step; cbn [who lab]; rewrite (proj2 (Nat.ltb_lt _ _) H0); cbn [negb]; rewrite Pg; reflexivity.
+  all: unfold step; cbn [who lab]; rewrite (proj2 (Nat.ltb_lt _ _) H0); cbn [negb]; rewrite Pg; unfold in_hterm;
+       destruct (hctx (th s g)) as [[? hm]|]; [destruct hm|]; cbn;
+       try destruct (caller (th s g)); try destruct (handlers_locked cf); cbn; rewrite ?orb_true_r; reflexivity.
 Qed.
 
 (* main creates 1 and 2, resumes 1, 1 yields; main closes 1: its goroutine runs end; the pending
@@ -52,25 +55,36 @@ Definition deadlock_trace : list action :=
   steps 1 [20;21;22;23;24] ++ [A 1 (LHResume 2)] ++ steps 1 [41;42].
 
 Definition dl_state : state :=
-  match run current init deadlock_trace with Some s => s | None => init end.
-Lemma dl_run : run current init deadlock_trace = Some dl_state.
+  match run old_handlers init deadlock_trace with Some s => s | None => init end.
+Lemma dl_run : run old_handlers init deadlock_trace = Some dl_state.
 Proof. vm_compute. reflexivity. Qed.
 
-Theorem no_deadlock_refuted :
-  exists s, reachable current s /\ main_done s = false /\ (forall h, pc s h <> Panicked) /\
-    forall a, step current s a = None.
+Theorem no_deadlock_old_handlers_refuted :
+  exists s, reachable old_handlers s /\ main_done s = false /\ (forall h, pc s h <> Panicked) /\
+    forall a, step old_handlers s a = None.
 Proof.
   exists dl_state. split; [exists deadlock_trace; exact dl_run|].
-  assert (C1 : can_step current dl_state = false) by (vm_compute; reflexivity).
+  assert (C1 : can_step old_handlers dl_state = false) by (vm_compute; reflexivity).
   assert (C2 : main_done dl_state = false) by (vm_compute; reflexivity).
   assert (C3 : forall h, pc dl_state h = (if h =? 2 then S0 else if h =? 1 then X3 2 0 (MVal 0)
                                           else if h =? 0 then R8 1 else NotCreated)).
   { intros h. vm_compute. destruct h as [|[|[|h]]]; reflexivity. }
   repeat split; auto.
   - intros h. rewrite C3. destruct (h =? 2), (h =? 1), (h =? 0); discriminate.
-  - intros a. destruct (step current dl_state a) eqn:S; auto. apply can_step_complete in S. congruence.
+  - intros a. destruct (step old_handlers dl_state a) eqn:S; auto. apply can_step_complete in S. congruence.
 Qed.
 
-(* the same handler behaviour is impossible in the [repaired] configuration: the acceptor rejects it *)
-Example deadlock_trace_rejected_when_repaired : accepts repaired deadlock_trace = false.
-Proof. vm_compute. reflexivity. Qed.
+(* On the repaired code the same Lua program is a plain behaviour: end runs the handler FIRST, as an
+   ordinary running thread; the handler resumes coroutine 2, which runs to completion and hands
+   control back to thread 1; thread 1 then finishes end and hands control back to main. *)
+Definition end2 (g : nat) (m : msg) : list action :=
+  steps g [20] ++ [A g (LHDone m)] ++ steps g [21;22;23;24;26;27] ++ [A g LRdv] ++ steps g [29;30].
+Definition handler_resume_trace : list action :=
+  [A 0 LCreate; A 0 LCreate; A 0 (LResume 1 0)] ++ steps 0 [1;2;3;4;5;6] ++ [A 0 LRdv; A 1 (LYield 0)] ++
+  steps 1 [11;12;13;14;15;16] ++ [A 1 LRdv; A 0 (LClose 1)] ++ steps 0 [1;2;3;4;5;6] ++ [A 0 LRdv] ++
+  steps 1 [20] ++ [A 1 (LResume 2 0)] ++ steps 1 [1;2;3;4;5;6] ++ [A 1 LRdv; A 2 (LFinish (MVal 0))] ++
+  end2 2 (MVal 0) ++ [A 1 (LHDone (MVal 0))] ++ steps 1 [21;22;23;24;26;27] ++ [A 1 LRdv] ++ steps 1 [29;30] ++
+  [A 0 (LFinish (MVal 0))].
+Example handler_resume_accepted :
+  accepts current handler_resume_trace = true /\ accepts current deadlock_trace = false.
+Proof. vm_compute. auto. Qed.
